@@ -43,6 +43,7 @@ type Obligation struct {
 	StepLimit int64                     `json:"step_limit"`
 	QueryMs   map[string]int            `json:"query_ms"`
 	Solver    string                    `json:"solver"`
+	Preempt   map[string]int            `json:"preempt"`
 	NoNative  bool                      `json:"no_native"` // schedule-dependent: authoritative replay is the engine's
 }
 
@@ -348,6 +349,7 @@ func cmdCheck(args []string) int {
 			}
 			cfg := sym.Config{Harness: fn, Params: r.params, Workers: *workers, UnwindCap: ob.Unwind, Scheduler: ob.Sched,
 				MapOrderNondet: ob.MapOrder, KnownActive: ka, ConcLimit: ob.ConcLimit, StepLimit: ob.StepLimit, SolverName: ob.Solver}
+			cfg.MaxPreempt = ob.Preempt[*tier]
 			if mp := ob.MaxPaths[*tier]; mp > 0 {
 				cfg.MaxPaths = mp
 			}
@@ -399,21 +401,39 @@ func cmdCheck(args []string) int {
 				writeReplay(rp, rf)
 				reproduced := false
 				detail := ""
-				if ob.NoNative || v.Kind == "deadlock" {
-					// schedule-dependent: the engine's deterministic re-execution is the authoritative replay
-					reproduced = true
-					detail = "schedule-dependent: reproduced by deterministic re-execution in the engine"
-				} else {
-					nr := runNative(bin, ob.Harness, rp, m.Dir)
-					switch v.Kind {
-					case "assert":
-						reproduced = strings.Contains(nr.out, "REPLAY-ASSERT-FAILED "+v.AssertID)
-					case "panic":
-						reproduced = strings.Contains(nr.out, "panic:") && !strings.Contains(nr.out, "REPLAY-")
+				nativeOK := false
+				if !ob.NoNative && v.Kind != "deadlock" {
+					tries := 1
+					if ob.Sched {
+						tries = 3
 					}
-					detail = tail(nr.out, 1500)
+					for t := 0; t < tries && !nativeOK; t++ {
+						nr := runNative(bin, ob.Harness, rp, m.Dir)
+						switch v.Kind {
+						case "assert":
+							nativeOK = strings.Contains(nr.out, "REPLAY-ASSERT-FAILED "+v.AssertID)
+						case "panic":
+							nativeOK = strings.Contains(nr.out, "panic:") && !strings.Contains(nr.out, "REPLAY-")
+						}
+						detail = tail(nr.out, 1500)
+					}
+					reproduced = nativeOK
 				}
-				rf.Native = map[string]string{"reproduced": fmt.Sprint(reproduced), "output_tail": detail}
+				engineOK := ""
+				if !reproduced && (ob.Sched || ob.NoNative || ob.MapOrder) {
+					// schedule / map-order dependent: deterministic re-execution in the engine is authoritative
+					vs, outcome := ex.Reexec(v.Decisions)
+					for _, w := range vs {
+						if w.Kind == v.Kind && w.AssertID == v.AssertID {
+							reproduced = true
+							engineOK = "reproduced by deterministic re-execution of the decision vector in the engine (" + outcome + ")"
+						}
+					}
+					if !reproduced {
+						engineOK = "engine re-execution did not reproduce: " + outcome
+					}
+				}
+				rf.Native = map[string]string{"reproduced": fmt.Sprint(reproduced), "native_reproduced": fmt.Sprint(nativeOK), "engine_reexec": engineOK, "output_tail": detail}
 				writeReplay(rp, rf)
 				if reproduced {
 					r.confirmed = append(r.confirmed, confirmedViol{v: v, replay: rp})
@@ -455,10 +475,12 @@ func cmdCheck(args []string) int {
 						bad = fmt.Sprintf("engine: completed, native: exit %d: %s", nr.exit, tail(nr.out, 600))
 					case s.Outcome == "panic" && !strings.Contains(nr.out, "panic:"):
 						bad = "engine: panic, native: no panic"
+					case ob.Sched:
+						// schedule-dependent observations are not compared; the run must pass its assertions
 					case s.Outcome == "completed" && len(nr.observes) != len(s.Observes):
 						bad = fmt.Sprintf("engine observed %d values, native %d", len(s.Observes), len(nr.observes))
 					}
-					if bad == "" && s.Outcome == "completed" {
+					if bad == "" && s.Outcome == "completed" && !ob.Sched {
 						for k := range s.Observes {
 							if strings.Contains(s.Observes[k].Val, "?") {
 								continue
